@@ -160,7 +160,17 @@ func c02Clone(c *Ctx, p *Prog) {
 			}
 			// whole-element copies into the clone's Config: the copied struct's field must have been replaced by a fresh slice
 			if ia, isIA := s.Addr.(*ssa.IndexAddr); isIA {
-				if lf, lb := loadOfField(ia.X); lf != nil && lf.Name() == "Config" && lb == obj && types.Identical(s.Val.Type(), cfgT) {
+				toClone := false
+				if lf, lb := loadOfField(ia.X); lf != nil && lf.Name() == "Config" && lb == obj {
+					toClone = true
+				}
+				// or into the argument array of an append that builds the clone's Config
+				if al, isAl := ia.X.(*ssa.Alloc); isAl {
+					if at, isArr := al.Type().(*types.Pointer).Elem().(*types.Array); isArr && types.Identical(at.Elem(), cfgT) {
+						toClone = true
+					}
+				}
+				if toClone && types.Identical(s.Val.Type(), cfgT) {
 					found = true
 					okEl := false
 					if la := loadAddr(s.Val); la != nil {
@@ -453,6 +463,21 @@ func c02Index(c *Ctx, p *Prog) {
 		for _, x := range want {
 			if x == w {
 				found = true
+			}
+		}
+		if !found {
+			// a helper that exists only for the reviewed functions (every caller is one of them) is part of them
+			for _, f := range p.Funcs("benchfmt") {
+				if fnName(f) == w && calledOnlyFrom(f, p.Funcs("benchfmt"), func(g *ssa.Function) bool {
+					for _, x := range want {
+						if fnName(g) == x {
+							return true
+						}
+					}
+					return false
+				}) {
+					found = true
+				}
 			}
 		}
 		if !found {
